@@ -159,6 +159,12 @@ func (rw *rewriter) replaceExpr(e ast.Expr) ast.Expr {
 				case "Output":
 					rw.n++
 					return call("verifOutput", s.X)
+				case "StdoutPipe":
+					rw.n++
+					return call("verifStdoutPipe", s.X)
+				case "StdinPipe":
+					rw.n++
+					return call("verifStdinPipe", s.X)
 				case "Kill":
 					if p, ok := s.X.(*ast.SelectorExpr); ok && p.Sel.Name == "Process" {
 						rw.n++
@@ -579,6 +585,24 @@ func verifLock(try func() bool) {
 	for !try() {
 		verifH.Yield()
 	}
+}
+
+// verifStdoutPipe / verifStdinPipe replace (*exec.Cmd).StdoutPipe / StdinPipe: a read from a
+// real pipe is no durable block, so the (simulated) helper is connected through verifPipe.
+func verifStdoutPipe(c *exec.Cmd) (io.ReadCloser, error) {
+	r, w := verifPipe()
+	c.Stdout = VerifOwnedStdout{w}
+	return r, nil
+}
+
+// VerifOwnedStdout marks a stdout that belongs to the child process alone: it is closed
+// (the reader sees EOF) when the simulated process ends.
+type VerifOwnedStdout struct{ io.WriteCloser }
+
+func verifStdinPipe(c *exec.Cmd) (io.WriteCloser, error) {
+	r, w := verifPipe()
+	c.Stdin = r
+	return w, nil
 }
 
 // verifCond replaces sync.Cond: Wait of the real one re-acquires its Locker with a plain
